@@ -183,6 +183,63 @@ theorem mechanism_sound (c : Ctx) (segs : List Seg) (q : Q) (root : Option Flt)
     (h : o ∈ searchSeg c segs (plan c true q) root s) : Spec.wanted c q root s o = true :=
   ((mechanism_characterisation c segs q root hx hs o).mp h).1
 
+/-! ## sufficient conditions for the two hypotheses -/
+
+/-- **Expansions below their caps are complete**: without request-level fuzzy options,
+`belowCaps` and `rxPrefixOk` for every term group of the plan give `expansionsComplete`.
+(`rxPrefixOk` fails on the unchanged code for patterns such as `rusts?`: second known finding,
+see `regex_prefix_witness`.) -/
+theorem expansionsComplete_of_caps (c : Ctx) (segs : List Seg) (q : Q) (hfz : c.fuzzy = none)
+    (hcap : (plan c true q).groups.all (belowCaps c segs) = true)
+    (hrx : (plan c true q).groups.all (rxPrefixOk c segs) = true) :
+    expansionsComplete c segs q = true := by
+  rw [expansionsComplete_iff]
+  intro g hg
+  by_cases he : g.exp = .exact
+  · exact exact_groupOK c segs g he (Or.inr hfz)
+  · exact pattern_groupOK c segs g he (List.all_eq_true.mp hcap g hg) (List.all_eq_true.mp hrx g hg)
+
+/-- **Syntactic coverage**: if the query tree `forces` a scored term (every must-path or every
+required should-path ends in a scored term/query-string/multi-match clause), every wanted document
+is covered, on every corpus. -/
+theorem forces_covered (c : Ctx) (segs : List Seg) (q : Q) (root : Option Flt)
+    (hx : expansionsComplete c segs q = true) (hf : forces true q = true) :
+    coveredByScoredTerms c segs q root = true := by
+  rw [coveredByScoredTerms_iff]
+  right
+  intro s hs o _ hw
+  unfold Spec.wanted at hw
+  cases hd : s.docs[o]? with
+  | none => rw [hd] at hw; cases hw
+  | some d =>
+    rw [hd] at hw
+    simp only [Bool.and_eq_true] at hw
+    have he : evalM c segs s o (plan c true q) = true := by
+      rw [evalM_plan c hs hd q true (expansionsComplete_iff.mp hx)]; exact hw.1.2
+    exact hasQualified_of_scoredHit c segs s o (forces_hit c segs s o q true hf he)
+
+/-- refinement for forcing queries: no hypothesis about the corpus is left -/
+theorem mechanism_eq_spec_of_forces (c : Ctx) (segs : List Seg) (q : Q) (root : Option Flt)
+    (hx : expansionsComplete c segs q = true) (hf : forces true q = true)
+    {s : Seg} (hs : s ∈ segs) (o : Nat) :
+    o ∈ searchSeg c segs (plan c true q) root s ↔
+      o ∈ (List.range s.docs.length).filter (Spec.wanted c q root s) :=
+  mechanism_eq_spec_partial c segs q root hx (forces_covered c segs q root hx hf) hs o
+
+/-- requests without any scored term group are answered by a full scan: always covered -/
+theorem unscored_covered (c : Ctx) (segs : List Seg) (q : Q) (root : Option Flt)
+    (h : (plan c true q).groups.all (fun g => !g.score) = true) :
+    coveredByScoredTerms c segs q root = true := by
+  rw [coveredByScoredTerms_iff]
+  left
+  unfold qualified
+  have : (plan c true q).groups.filter (·.score) = [] := by
+    rw [List.filter_eq_nil_iff]
+    intro g hg
+    have := List.all_eq_true.mp h g hg
+    simpa using this
+  rw [this]; rfl
+
 /-! ## phrase slop -/
 
 /-- `matches_phrase` (the recursive search with remaining slop, early `break` included) on
@@ -297,6 +354,31 @@ example :
     let q : Q := .bool [.term [1] [8]] [.term [1] [7]] [.term [1] [9]] [] none
     expansionsComplete wCtx wSegs q = true ∧ coveredByScoredTerms wCtx wSegs q none = true ∧
       searchOrds wCtx wSegs q none = [[0], [1]] ∧ search wCtx wSegs q none = [[10], [13]] := by decide
+
+/-- a document whose only field holds one value with the given tokens -/
+def wDocT (id : Nat) (toks : List Str) : ADoc :=
+  { id := [id], text := [([1], [toks.zipIdx.map (fun (w, i) => ⟨w, i⟩)])], kw := [], i64 := [] }
+
+/-- regex oracle for the witness below: pattern `[7,8,63]` (think `ab?`) matches the terms
+`[7]` and `[7,8]` -/
+def wCtxRx : Ctx := { wCtx with rx := fun p t => p == [7, 8, 63] && (t == [7] || t == [7, 8]) }
+
+/-- **Negative witness 2** (`regex.literal-prefix`): `regex_literal_prefix("ab?")` is `ab`, so the
+term `a` is never scanned although the pattern matches it. -/
+theorem regex_prefix_witness :
+    rxPrefix [7, 8, 63] = [7, 8] ∧
+    searchOrds wCtxRx [⟨[wDocT 20 [[7]], wDocT 21 [[7, 8]]], []⟩] (.regex [1] [7, 8, 63] 100) none = [[1]] ∧
+    Spec.searchOrds wCtxRx [⟨[wDocT 20 [[7]], wDocT 21 [[7, 8]]], []⟩] (.regex [1] [7, 8, 63] 100) none = [[0, 1]] ∧
+    (plan wCtxRx true (.regex [1] [7, 8, 63] 100)).groups.all (rxPrefixOk wCtxRx [⟨[wDocT 20 [[7]], wDocT 21 [[7, 8]]], []⟩]) = false := by
+  decide
+
+/-- non-vacuity of `forces_covered` / `expansionsComplete_of_caps`: a forcing query with a prefix
+clause below its cap (`bool { should: [prefix body:8*, term body:7] }`) -/
+example :
+    let q : Q := .bool [] [.pfx [1] [8] 5, .term [1] [7]] [] [] none
+    forces true q = true ∧ (plan wCtx true q).groups.all (belowCaps wCtx wSegs) = true ∧
+      (plan wCtx true q).groups.all (rxPrefixOk wCtx wSegs) = true ∧
+      searchOrds wCtx wSegs q none = [[0], [1, 0]] := by decide
 
 /-- non-vacuity of `mechanism_characterisation` on the scan path (no scored term) -/
 example : searchOrds wCtx wSegs (.bool [.matchAll] [] [.phrase none [[8, 32, 9]] 0] [] none) none = [[0], [0, 1]] := by
